@@ -101,3 +101,95 @@ Theorem C18_map_users_from_source :
 Proof. exact map_users_from_source. Qed.
 Print Assumptions C18_map_users_from_source.
 End C18MapUsers.
+
+(* ================= the daemon's readiness wiring, read from the source =================
+   Gen/DaemonWiring.v is REGENERATED on every run (tools/go2v/wiringgen.go) by evaluating the AST of
+   cmd/namedpipe.go (RunNamedPipe), main.go and what they reach: the top-level start-up order of RunNamedPipe —
+   h.AddReadiness(<name>) registrations and eg.Go(<worker>) starts, names resolved through the constants —; for
+   every worker the health object it ends up with (followed through the constructors' fields) and the names it
+   marks (OnReady calls reached from its entry method, through fields and method values); every other
+   AddReadiness / OnReady call site of the module. *)
+From AM Require Gen.DaemonWiring Proofs.DaemonWiringLemmas.
+Module C18Daemon.
+Import Coq.Strings.String.
+Import AM.Gen.DaemonWiring AM.Proofs.DaemonWiringLemmas.
+Open Scope string_scope.
+Open Scope list_scope.
+
+(* the obligations on the generated data: registrations and workers alternate, each registration immediately
+   followed by the start of a worker that marks that name;
+   every registered name is marked by some worker and every marked name is registered; every worker marks on
+   RunNamedPipe's own health object, in a top-level statement, and registers nothing; nothing else in the module
+   registers or marks; main.go builds the health object with health.NewHealth (empty map, C18_map_users_from_source) *)
+Theorem C18_readiness_wiring_from_source : readiness_wiring_ok = true.
+Proof. exact readiness_wiring_from_source. Qed.
+Print Assumptions C18_readiness_wiring_from_source.
+
+(* General (any names): whatever happened before, after a series of marks readiness holds iff every name ever
+   registered is among those marks or had already been marked after its last registration. *)
+Theorem C18_ready_after_marks : forall (pre : list hop) (marks : list name),
+  is_ready (hrun (pre ++ map HReady marks)) = true <->
+  forall n, In (HAdd n) pre -> In n marks \/ last_touch n pre = Some true.
+Proof. exact ready_after_marks. Qed.
+Print Assumptions C18_ready_after_marks.
+
+(* After the registrations (repetitions allowed), then marks: readiness iff every registered NAME has been marked. *)
+Theorem C18_ready_after_registrations : forall (regs marks : list name),
+  is_ready (hrun (map HAdd regs ++ map HReady marks)) = true <-> forall n, In n regs -> In n marks.
+Proof. exact ready_after_regs. Qed.
+Print Assumptions C18_ready_after_registrations.
+
+(* With the GENERATED registrations and marking sets: after RunNamedPipe's registrations, once the workers [ws]
+   (any list of worker names) have marked, readiness is reported iff every registered name is marked by one of them. *)
+Theorem C18_daemon_ready_iff : forall ws : list string,
+  is_ready (hrun (daemon_ops ws)) = true <->
+  forall n, In n readiness_registrations -> exists w, In w ws /\ In n (marks_of w).
+Proof. exact daemon_ready_iff. Qed.
+Print Assumptions C18_daemon_ready_iff.
+
+(* OBSERVATION (stated, not hidden): "named-pipe-processor" is registered TWICE — once before each pipe ingester —
+   and marked by BOTH ingesters; the readiness map is keyed by name, so the two registrations are one entry.  With
+   the data as generated from the current source, readiness is reported iff the audit processor has marked and AT
+   LEAST ONE of the two pipe ingesters has.  C18 speaks of registered component NAMES ("reported only when every
+   registered component is ready"): every registered name is then marked, so this is not a violation of C18 as
+   stated; but "ready" does not mean that both pipes are being read. *)
+Theorem C18_daemon_ready_needs : forall ws : list string,
+  is_ready (hrun (daemon_ops ws)) = true <->
+  (In "audit_processor" ws /\ (In "sshd_ingester" ws \/ In "audit_ingester" ws)).
+Proof. exact daemon_ready_needs. Qed.
+Print Assumptions C18_daemon_ready_needs.
+
+(* readiness reported with only ONE of the two pipe ingesters ready (either one) *)
+Example C18_ready_with_one_pipe_ingester :
+  readiness_registrations = ["named-pipe-processor"; "named-pipe-processor"; "auditd-processor"] /\
+  worker_marks = [("sshd_ingester", ["named-pipe-processor"]); ("audit_ingester", ["named-pipe-processor"]);
+                  ("audit_processor", ["auditd-processor"])] /\
+  st_code (status_of (hrun (daemon_ops ["sshd_ingester"; "audit_processor"]))) = 200 /\
+  st_code (status_of (hrun (daemon_ops ["audit_ingester"; "audit_processor"]))) = 200 /\
+  st_comps (status_of (hrun (daemon_ops ["audit_ingester"; "audit_processor"])))
+    = [(intern "auditd-processor", true); (intern "named-pipe-processor", true)] /\
+  st_code (status_of (hrun (daemon_ops ["sshd_ingester"; "audit_ingester"]))) = 503 /\
+  st_code (status_of (hrun (daemon_ops ["audit_processor"]))) = 503.
+Proof. vm_compute. repeat split; reflexivity. Qed.
+
+(* Two further consequences of the generated START-UP ORDER (registrations and worker starts alternate, so a
+   worker runs while later registrations are still to come).  Both are within C18 as stated (at each instant
+   every name registered SO FAR is marked), and both are reported:
+   (1) after the first registration and the first worker's mark, a request sees "ready" although the other two
+       registrations have not been made yet;
+   (2) a mark made by the first ingester before the second registration of the same name is RESET by that
+       registration (Store(name, false)); the ingester marks only once, so from then on "named-pipe-processor"
+       depends on the audit ingester alone. *)
+Example C18_startup_order_consequences :
+  let ops_of i := match i with SReg n => reg_ops [n] | SGo _ => [] end in
+  startup_sequence = [SReg "named-pipe-processor"; SGo "sshd_ingester"; SReg "named-pipe-processor"; SGo "audit_ingester";
+                      SReg "auditd-processor"; SGo "audit_processor"] /\
+  (* (1) *)
+  st_code (status_of (hrun (flat_map ops_of (firstn 2 startup_sequence) ++ mark_ops (marks_of "sshd_ingester")))) = 200 /\
+  (* (2) *)
+  let early := flat_map ops_of (firstn 2 startup_sequence) ++ mark_ops (marks_of "sshd_ingester")
+               ++ flat_map ops_of (skipn 2 startup_sequence) ++ mark_ops (marks_of "audit_processor") in
+  st_code (status_of (hrun early)) = 503 /\
+  st_code (status_of (hrun (early ++ mark_ops (marks_of "audit_ingester")))) = 200.
+Proof. vm_compute. repeat split; reflexivity. Qed.
+End C18Daemon.
